@@ -11,6 +11,7 @@ structure ExtObj where
   s : ExtState Float
   kb : Float            -- harmonic bias on the extended coordinate: force constant (0 = none)
   cb : Float
+  coef : Float := 1.0   -- `componentCoeff` of the single distanceZ component (the value is coef * z, wrapped when periodic)
   kw : Float := 0.0     -- harmonicWalls (bypasses the extended coordinate): force constant (0 = none)
   uw : Float := 0.0     -- upper wall
   xrep : Float := 0.0   -- value reported at the last step
@@ -99,7 +100,9 @@ def modOps (s : ModSt) (ln : Nat) (t : List String) : Option (ModSt × List Stri
         -- its biases share the factor and hand over n times their force (`communicate_forces`)
         if e.p.tsf > 1 && m'.clock.it % e.p.tsf != 0 then (es ++ [e], rng, en) else
         let nF : Float := Float.ofInt e.p.tsf
-        let x := inp.z e.atom
+        let x := match e.p.per with
+          | none => e.coef * inp.z e.atom
+          | some P => wrapS P e.p.wrapC (e.coef * inp.z e.atom)
         let s1 := extPrepare e.p m'.clock true e.s x
         let w := e.p.width
         let fb := (-0.5 * e.kb / (w * w) * dist2SGrad e.p.per s1.xExt e.cb) * nF
@@ -248,15 +251,15 @@ def modOps (s : ModSt) (ln : Nat) (t : List String) : Option (ModSt × List Stri
       gamma := getF "gamma" 0.0
       sigma := getF "sigma" 0.0
       langevin := getI "langevin" 0 != 0
-      per := none
-      wrapC := 0.0
+      per := if getF "per" 0.0 > 0.0 then some (getF "per" 0.0) else none
+      wrapC := getF "wrapc" 0.0
       width := getF "width" 1.0
       reflLower := if getI "haslo" 0 != 0 then some (getF "rl" 0.0) else none
       reflUpper := if getI "hasup" 0 != 0 then some (getF "ru" 0.0) else none
       subtract := getI "sub" 0 != 0 }
     let st : ExtState Float := { xExt := 0.0, vExt := 0.0, prevX := 0.0, prevV := 0.0, xOld := 0.0, ek := 0.0, ep := 0.0,
                                  fr := 0.0, ftReported := 0.0, fAtoms := 0.0 }
-    let e : ExtObj := { name := name, atom := nOfTok atom, p := p, s := st, kb := getF "kb" 0.0, cb := getF "cb" 0.0,
+    let e : ExtObj := { name := name, atom := nOfTok atom, p := p, s := st, coef := getF "coef" 1.0, kb := getF "kb" 0.0, cb := getF "cb" 0.0,
                         kw := getF "kw" 0.0, uw := getF "uw" 0.0 }
     some ({ s with exts := s.exts ++ [e], modelled := true }, [])
   | ["e.dump", name] =>
